@@ -120,11 +120,13 @@ def rule_tpl_role(ctx):
     ctx.instance("add_where_clauses_for_new_ident:copy")
     from . import reject as RJ
 
+    from .. import guardf as GF
+
     copy_chains = []
     for mac, ps in A.find(wc.block, ("Expr::Macro", "Stmt::Macro")):
         if A.path_last(mac["mac"]["path"]) == "quote" and T.ir_text(T.to_ir(mac["mac"]["tokens"])).replace(" ", "").endswith(":derive_more::core::marker::Copy"):
-            copy_chains.append(A.alpha(" && ".join(RJ.guard_chain(wc, mac, ps, RJ._lets(wc))), numbered=False))
-    if copy_chains != ["if $.len()>1"]:
+            copy_chains.append(RJ.site_formula(wc, mac, ps))
+    if len(copy_chains) != 1 or not GF.equivalent(copy_chains[0], ("atom", "1<$.len()"))[0]:
         ctx.report("role:scalar:copy", ctx.where(wc.file, wc.node), "the scalar right-hand side is no longer bounded by `Copy` exactly when it is applied to more than one field", {})
     # receiver kinds: Mul by value, MulAssign by &mut
     for rel, kind_ in (("impl/src/mul_like.rs", "RefType::No"), ("impl/src/mul_assign_like.rs", "RefType::Mut")):
@@ -261,10 +263,28 @@ def eval_str(fn, e, env, depth=0):
     if k == "Expr::Binary" and A.kind(e["op"]) == "BinOp::Add":
         l, r = eval_str(fn, e["left"], env, depth + 1), eval_str(fn, e["right"], env, depth + 1)
         return l + r if l is not None and r is not None else None
+    if k == "Expr::Call" and (A.path_str(e["func"]) or "").split("::")[-2:] == ["Ident", "new"] and len(e["args"]) == 2:
+        # `Ident::new(<string>, span)` names what the string says
+        return eval_str(fn, e["args"][0], env, depth + 1)
     if k == "Expr::Macro" and A.path_last(e["mac"]["path"]) in ("format", "format_ident"):
         toks = e["mac"]["tokens"]
         if toks and A.kind(toks[0]) == "Literal":
             pat = toks[0]["lit"].get("value") or ""
+            # positional `{}` arguments that are plain names
+            parts, cur = [], []
+            for t_ in toks[1:]:
+                if A.kind(t_) == "Punct" and A.punct_char(t_) == ",":
+                    parts.append(cur)
+                    cur = []
+                else:
+                    cur.append(t_)
+            parts.append(cur)
+            pos = [p_ for p_ in parts if p_ and not (len(p_) >= 2 and A.kind(p_[1]) == "Punct" and A.punct_char(p_[1]) == "=")]
+            if "{}" in pat:
+                if not all(len(p_) == 1 and A.kind(p_[0]) == "Ident" for p_ in pos) or pat.count("{}") != len(pos):
+                    return None
+                it_ = iter(pos)
+                pat = re.sub(r"\{\}", lambda m_: "{" + next(it_)[0]["sym"] + "}", pat)
 
             def sub(m):
                 nm = m.group(1)
